@@ -1,6 +1,7 @@
 package main
 
 import (
+	"fmt"
 	"github.com/privacybydesign/gabi"
 	"github.com/privacybydesign/gabi/big"
 )
@@ -9,7 +10,7 @@ import (
 
 func sigOp(kid string, sig *gabi.CLSignature, msgs []*big.Int, class, label string) Op {
 	return Op{"op": "cl-verify", "class": class, "label": label, "key": kid,
-		"sig": map[string]any{"A": hx(sig.A), "e": hx(sig.E), "v": hx(sig.V), "KeyshareP": hx(sig.KeyshareP)},
+		"sig":  map[string]any{"A": hx(sig.A), "e": hx(sig.E), "v": hx(sig.V), "KeyshareP": hx(sig.KeyshareP)},
 		"msgs": hxs(msgs)}
 }
 
@@ -102,9 +103,38 @@ func genC05(g *Rng, tier string, emit func(Op)) {
 			// repeated randomisation
 			rs := sig
 			for k := 0; k < 1+g.intn(3); k++ {
-				rs, _ = rs.Randomize(pk)
+				next, err := rs.Randomize(pk)
+				if err != nil || next == nil {
+					// a valid signature that cannot be randomised (again): the signature is the input
+					emit(Op{"op": "recorded", "class": "randomize-refused", "label": "randomized", "nomodel": true, "fkey": "C05/randomize-refused",
+						"result": fmt.Sprintf("refused: %v", err), "key": kp.id, "sig": map[string]any{"A": hx(rs.A), "e": hx(rs.E), "v": hx(rs.V)}, "msgs": hxs(ms)})
+					break
+				}
+				rs = next
 			}
 			emit(sigOp(kp.id, rs, ms, "randomized", "accept"))
+			// a copy whose v has become negative is randomised again (and again): still a signature
+			for k := 0; k < 60; k++ {
+				rn, _ := sig.Randomize(pk)
+				if rn == nil || rn.V.Sign() >= 0 {
+					continue
+				}
+				cur := rn
+				for j := 0; j < 3 && cur != nil; j++ {
+					next, err := cur.Randomize(pk)
+					if err != nil || next == nil {
+						emit(Op{"op": "recorded", "class": "randomize-refused", "label": "randomized", "nomodel": true, "fkey": "C05/randomize-refused",
+							"result": fmt.Sprintf("refused: %v", err), "key": kp.id, "sig": map[string]any{"A": hx(cur.A), "e": hx(cur.E), "v": hx(cur.V)}, "msgs": hxs(ms)})
+						cur = nil
+						break
+					}
+					cur = next
+				}
+				if cur != nil {
+					emit(sigOp(kp.id, cur, ms, "randomized-negative-v-again", "accept"))
+				}
+				break
+			}
 			// randomisation subtracts e*r from v: about every third result has a negative v
 			for k := 0; k < 40; k++ {
 				if rn, _ := sig.Randomize(pk); rn != nil && rn.V.Sign() < 0 {
